@@ -40,6 +40,14 @@ prop("C05", "Dependency cycles are reported, never hang, and spare the acyclic p
                   "hang-freedom as liveness"])
 
 
+def _ok_payload(b, bb):
+    """operand of the Ok(..) aggregate stored to a return carrier in block bb"""
+    for st in b.blocks[bb]["stmts"]:
+        if st["k"] == "assign" and st["rv"]["k"] == "aggregate" and st["rv"]["agg"].get("variant") == "Ok" and st["rv"]["ops"]:
+            return st["rv"]["ops"][0]
+    return {"l": 0, "p": []}
+
+
 def spawner_bodies(ctx):
     """bodies that hand a closure to ThreadPool::execute, with the closure bodies"""
     out = []
@@ -473,13 +481,12 @@ def r03_6(ctx):
                     ctx.violation([b.name, "p-origin"], "AbsPath.p does not come from make_abs (canonicalisation skipped on some path)", site=ctx.site(b, bb))
     ma = body(ctx, "make_abs")
     if ma:
-        good = False
-        for bb, t in ma.calls():
-            if t["dest"]["l"] == 0:
-                lv = C.trace(ma, t["args"][0], through_decorators=True)
-                if has_call(lv, "std::path::Path::canonicalize"):
-                    good = True
-        oks = ok_sites(ma)
+        # every success value make_abs can return is what canonicalize() returned (Path::canonicalize and fs::canonicalize are the
+        # same function); error values carry no path
+        CANON = ("std::path::Path::canonicalize", "std::fs::canonicalize")
+        lv = C.trace(ma, {"l": 0, "p": []}, through_decorators=True)
+        good = bool(lv) and all(leaf_is_call(l, CANON) for l in lv)
+        oks = [bb for bb in ok_sites(ma) if not all(leaf_is_call(l, CANON) for l in C.trace(ma, _ok_payload(ma, bb), through_decorators=True))]
         if good and not oks:
             ctx.ok("make_abs returns canonicalize()'s result", site=ctx.site(ma, 0))
         else:
